@@ -828,4 +828,52 @@ example : True := by
     (show (0 : ℝ) < 1 / 2 by norm_num)
   trivial
 
+/-- **Convergence in probability of the resampling stage, with an explicit sample size.** For every accuracy `ε > 0` and every
+failure probability `δ > 0`: as soon as `N ≥ E_w[xs_a²] / (δ ε²)` particles are resampled, the probability that coordinate `a` of the
+PF estimate is at least `ε` away from the weighted mean is at most `δ` (and it is a probability: `≥ 0`). -/
+theorem pf_resample_converges {M n : Nat} (w : Fin M → ℝ) (hw0 : ∀ i, 0 ≤ w i) (hw : ∑ i, w i = 1)
+    (xs : Fin M → Fin n → ℝ) (Q : Matrix (Fin n) (Fin n) ℝ) (a : Fin n) {ε δ : ℝ} (hε : 0 < ε) (hδ : 0 < δ) :
+    let μ := ∑ i, w i * xs i a
+    ∀ N : Nat, 0 < N → (∑ i, w i * xs i a ^ 2) / (δ * ε ^ 2) ≤ N →
+      0 ≤ expectIdx (N := N) w (fun f => if ε ≤ |(pfMoments Q (fun j => xs (f j))).x a - μ| then 1 else 0) ∧
+      expectIdx (N := N) w (fun f => if ε ≤ |(pfMoments Q (fun j => xs (f j))).x a - μ| then 1 else 0) ≤ δ := by
+  intro μ N hN hbig
+  have hN' : (0 : ℝ) < N := by exact_mod_cast hN
+  have hc := pf_resample_concentration (N := N) w hw0 hw hN xs Q a hε
+  refine ⟨?_, (hc.1.trans hc.2).trans ?_⟩
+  · have h0 := expectIdx_mono (N := N) w hw0 (F := fun _ => 0)
+      (G := fun f => if ε ≤ |(pfMoments Q (fun j => xs (f j))).x a - μ| then 1 else 0)
+      (fun f => by split_ifs <;> norm_num)
+    have z : expectIdx (N := N) w (fun _ => (0 : ℝ)) = 0 := by simp [expectIdx]
+    rwa [z] at h0
+  · rw [div_le_iff₀ (by positivity)] at hbig ⊢
+    nlinarith [hbig]
+
+/-- ... hence that probability tends to `0` as `N → ∞`, for every `ε > 0` (weak law of large numbers for the resampling stage) -/
+theorem pf_resample_tendsto {M n : Nat} (w : Fin M → ℝ) (hw0 : ∀ i, 0 ≤ w i) (hw : ∑ i, w i = 1)
+    (xs : Fin M → Fin n → ℝ) (Q : Matrix (Fin n) (Fin n) ℝ) (a : Fin n) {ε : ℝ} (hε : 0 < ε) :
+    _root_.Filter.Tendsto
+      (fun N : ℕ => expectIdx (N := N) w
+        (fun f => if ε ≤ |(pfMoments Q (fun j => xs (f j))).x a - ∑ i, w i * xs i a| then 1 else 0))
+      _root_.Filter.atTop (nhds 0) := by
+  rw [Metric.tendsto_atTop]
+  intro δ hδ
+  have hδ2 : 0 < δ / 2 := by positivity
+  refine ⟨max 1 ⌈(∑ i, w i * xs i a ^ 2) / (δ / 2 * ε ^ 2)⌉₊, fun N hN => ?_⟩
+  have h1 : 0 < N := lt_of_lt_of_le Nat.one_pos ((le_max_left _ _).trans hN)
+  have h2 : (∑ i, w i * xs i a ^ 2) / (δ / 2 * ε ^ 2) ≤ N :=
+    (Nat.le_ceil _).trans (by exact_mod_cast (le_max_right _ _).trans hN)
+  obtain ⟨h0, hle⟩ := pf_resample_converges w hw0 hw xs Q a hε hδ2 N h1 h2
+  rw [Real.dist_eq, sub_zero, abs_of_nonneg h0]
+  linarith
+
+/-- admissible data for `pf_resample_converges` / `pf_resample_tendsto`, instantiated: weights `1/4, 3/4`, particles `(2), (−1)`,
+`ε = 1/2`, `δ = 1/10`: `E_w[x²] = 7/4`, so `N ≥ 70` resampled particles suffice -/
+example : expectIdx (N := 70) ![1/4, 3/4]
+    (fun f => if (1/2 : ℝ) ≤ |(pfMoments (0 : Matrix (Fin 1) (Fin 1) ℝ) (fun j => ![![2], ![-1]] (f j))).x 0
+      - ∑ i, ![1/4, 3/4] i * ![![(2 : ℝ)], ![-1]] i 0| then 1 else 0) ≤ 1/10 := by
+  refine (pf_resample_converges ![1/4, 3/4] (by intro i; fin_cases i <;> norm_num) (by simp [Fin.sum_univ_two]; norm_num)
+    ![![2], ![-1]] 0 0 (ε := 1/2) (δ := 1/10) (by norm_num) (by norm_num) 70 (by norm_num) ?_).2
+  simp [Fin.sum_univ_two]; norm_num
+
 end PP.Filter
